@@ -247,6 +247,30 @@ pub fn run(ctx: &Ctx) {
             with_prefix_sweep_case(i, tier, lows, |input, mode| judge_decode(input, mode, loc));
         }).distinct().trace(3000));
     }
+    // writer history: the bytes written for b must not depend on what was serialised before (memo
+    // tables keyed by too little): all ordered pairs over seed messages and their byte-order twins
+    // with short and long names / units
+    {
+        let mut msgs: Vec<RefMsg> = seed_messages(Tier::Quick).into_iter().step_by(3).collect();
+        for big in [false, true] {
+            for nl in [0usize, 3, 30, 31, 32, 33, 64, 300] {
+                for (k, v) in [(RefKind::Uint(4), RefValue::U(0x0102_0304, 4)), (RefKind::Sint(2), RefValue::I(-2, 2)), (RefKind::Float(8), RefValue::F64(0x3FF8_0000_0000_0000)), (RefKind::SFix(4), RefValue::I(5, 4))] {
+                    let name = "n".repeat(nl);
+                    msgs.push(msg_with(if big { 0x02 } else { 0 }, 1, Some(ext(MSTP_LOG, 4, "APP", "CTX")), RefPayload::Verbose(vec![mk_arg(k, Some((&name, "unit")), 0, false, v, None)]), None));
+                }
+                let name = "s".repeat(nl);
+                msgs.push(msg_with(if big { 0x02 } else { 0 }, 1, Some(ext(MSTP_LOG, 4, "APP", "CTX")), RefPayload::Verbose(vec![mk_arg(RefKind::Str, Some((&name, "")), 1, false, RefValue::Str(name.clone()), None)]), None));
+            }
+        }
+        let n = msgs.len() as u64;
+        let msgs = &msgs;
+        ctx.run_family(Family::new("c02.enc.history", n * n, format!("all {}^2 ordered pairs (a, b) over seed messages and one-argument messages with names of 0 / 3 / 30..33 / 64 / 300 bytes in both byte orders: serialise a, then b (twice): both serialisations of b must be the reference bytes", n), move |i, loc| {
+            let (a, b) = (&msgs[(i / n) as usize], &msgs[(i % n) as usize]);
+            let _ = catch(|| to_crate(a).as_bytes());
+            judge_encode(b, loc);
+            judge_encode(b, loc);
+        }).distinct());
+    }
     // history: the verdict on b must not depend on what was parsed before (caches, memo tables,
     // thread-local scratch state): for all ordered pairs (a, b) over a diverse input set, parse a,
     // then b twice, and compare both verdicts on b with the reference
